@@ -183,3 +183,119 @@ Qed.
 
 Corollary predictions_direct G a r : In r G -> lhs r = a -> In r (predictions G a).
 Proof. intros H <-. apply predictions_spec. split; auto. constructor. Qed.
+
+(* ---------------------------------------------------------------------------------------- *)
+(* NULLABLE of calculate_sets: the iteration stops within its fuel at the set of non-terminals that derive
+   the empty string. *)
+Section Nullable.
+  Variable G : grammar.
+  Variable tok : Type.
+  Variable tmatch : nat -> tok -> bool.
+  Notation derives := (derives G tok tmatch).
+
+  Definition null_step (N : list nat) (r : rule) : list nat :=
+    if forallb (sym_nullable N) (rhs r)
+    then (if in_dec Nat.eq_dec (lhs r) N then N else N ++ [lhs r]) else N.
+
+  Lemma sweep_unfold l N : nullable_sweep l N = fold_left null_step l N.
+  Proof. reflexivity. Qed.
+
+  Definition null_sound (N : list nat) : Prop := forall a, In a N -> derives [NT a] [].
+  Definition null_closed (N : list nat) : Prop :=
+    forall r, In r G -> forallb (sym_nullable N) (rhs r) = true -> In (lhs r) N.
+
+  Lemma sym_nullable_In N a : sym_nullable N (NT a) = true <-> In a N.
+  Proof. simpl. destruct (in_dec Nat.eq_dec a N); split; auto; discriminate. Qed.
+
+  Lemma derives_nil_of_sound N ss : null_sound N -> forallb (sym_nullable N) ss = true -> derives ss [].
+  Proof.
+    intros HS. induction ss as [|[t|a] ss IH]; simpl; intros H.
+    - constructor.
+    - discriminate.
+    - apply andb_true_iff in H. destruct H as [H1 H2].
+      assert (Ha : In a N) by (apply sym_nullable_In; exact H1).
+      pose proof (HS a Ha) as Hd. inversion Hd as [| |a' r ss' w1 w2 Hr Hl Hd1 Hd2 E1 E2]; subst.
+      apply app_eq_nil in E2. destruct E2 as [-> ->].
+      change (@nil tok) with (@nil tok ++ []). eapply d_nt; eauto.
+  Qed.
+
+  Lemma null_step_props N r : In r G -> null_sound N -> NoDup N -> incl N (map lhs G) ->
+    let N' := null_step N r in
+    null_sound N' /\ NoDup N' /\ incl N' (map lhs G) /\ incl N N' /\ length N <= length N' /\
+    (length N' = length N -> N' = N /\ (forallb (sym_nullable N) (rhs r) = true -> In (lhs r) N)).
+  Proof.
+    intros Hr HS ND HI. unfold null_step.
+    destruct (forallb (sym_nullable N) (rhs r)) eqn:E.
+    - destruct (in_dec Nat.eq_dec (lhs r) N) as [Hin|Hnin].
+      + repeat split; auto using incl_refl.
+      + repeat split.
+        * intros a Ha. apply in_app_or in Ha. destruct Ha as [?|[<- |[]]]; auto.
+          change (@nil tok) with (@nil tok ++ []). eapply d_nt; eauto.
+          -- eapply derives_nil_of_sound; eauto.
+          -- constructor.
+        * apply NoDup_snoc; auto.
+        * intros a Ha. apply in_app_or in Ha. destruct Ha as [?|[<- |[]]]; auto. apply in_map; auto.
+        * intros a Ha. apply in_or_app; auto.
+        * rewrite app_length. simpl. lia.
+        * rewrite app_length in H. simpl in H. lia.
+        * rewrite app_length in H. simpl in H. lia.
+    - repeat split; auto using incl_refl. discriminate.
+  Qed.
+
+  Lemma sweep_props l : forall N, incl l G -> null_sound N -> NoDup N -> incl N (map lhs G) ->
+    let N' := fold_left null_step l N in
+    null_sound N' /\ NoDup N' /\ incl N' (map lhs G) /\ length N <= length N' /\
+    (length N' = length N -> N' = N /\
+        forall r, In r l -> forallb (sym_nullable N) (rhs r) = true -> In (lhs r) N).
+  Proof.
+    induction l as [|r l IH]; intros N Hl HS ND HI; simpl.
+    - repeat split; auto. intros r [].
+    - assert (Hr : In r G) by (apply Hl; left; auto).
+      destruct (null_step_props N r Hr HS ND HI) as (S1 & D1 & I1 & _ & L1 & E1).
+      destruct (IH (null_step N r)) as (S2 & D2 & I2 & L2 & E2); auto.
+      { intros x Hx. apply Hl. right; auto. }
+      repeat split; auto; try lia.
+      + assert (length (null_step N r) = length N) by lia.
+        destruct (E1 H0) as [EN _]. destruct E2 as [E2 _]; [lia|]. congruence.
+      + assert (HL : length (null_step N r) = length N) by lia.
+        destruct (E1 HL) as [EN Hc]. destruct E2 as [_ E2]; [lia|].
+        intros r0 [<- |Hr0] Hf; auto. rewrite EN in E2. apply E2; auto.
+  Qed.
+
+  Lemma nullable_iter_props fuel : forall N,
+    null_sound N -> NoDup N -> incl N (map lhs G) -> length G < fuel + length N ->
+    null_sound (nullable_iter G fuel N) /\ null_closed (nullable_iter G fuel N).
+  Proof.
+    induction fuel as [|f IH]; intros N HS ND HI Hlen.
+    - assert (length N <= length (map lhs G)) by (apply NoDup_incl_length; auto).
+      rewrite map_length in H. simpl in Hlen. lia.
+    - cbn [nullable_iter]. rewrite sweep_unfold.
+      destruct (sweep_props G N (incl_refl G) HS ND HI) as (S1 & D1 & I1 & L1 & E1).
+      destruct (Nat.eqb_spec (length (fold_left null_step G N)) (length N)) as [Heq|Hne].
+      + split; auto. destruct (E1 Heq) as [_ Hc]. intros r Hr Hf. apply Hc; auto.
+      + apply IH; auto. lia.
+  Qed.
+
+  Lemma closed_complete_nullable N : null_closed N ->
+    forall ss w, derives ss w -> w = [] -> forallb (sym_nullable N) ss = true.
+  Proof.
+    intros HC. induction 1 as [| t k ss w Hm Hd IH | a r ss w1 w2 Hr Hl Hd1 IH1 Hd2 IH2]; intros E; auto.
+    - discriminate.
+    - apply app_eq_nil in E. destruct E as [-> ->]. cbn [forallb]. apply andb_true_iff. split; auto.
+      apply sym_nullable_In. rewrite <- Hl. apply HC; auto.
+  Qed.
+
+  (* NULLABLE (restricted to non-terminals) = the non-terminals deriving the empty string *)
+  Theorem nullable_set_spec a : In a (nullable_set G) <-> derives [NT a] [].
+  Proof.
+    unfold nullable_set.
+    destruct (nullable_iter_props (S (length G)) []) as (HS & HC).
+    - intros x [].
+    - constructor.
+    - intros x [].
+    - simpl. lia.
+    - split; [apply HS|].
+      intros Hd. pose proof (closed_complete_nullable _ HC _ _ Hd eq_refl) as H.
+      cbn [forallb] in H. apply andb_true_iff in H. apply sym_nullable_In. apply H.
+  Qed.
+End Nullable.
